@@ -247,37 +247,103 @@ static std::string run_temp(const TempArgs &a, const RecombinationRates &rr,
   return res;
 }
 
-/// table of the real balance function at the temperatures in Ts -------------------------------
-static std::string balance_table(const TempArgs &a, const std::vector< double > &Ts) {
-  Abundances ab(a.AHe, a.AC, a.AN, a.AO, a.ANe, a.AS);
-  double crfac = a.crfac * a.crcell;
-  if (crfac < 0.)
-    crfac = a.crfac;
-  double j[NUMBER_OF_IONNAMES], h[NUMBER_OF_HEATINGTERMS];
+/// the arguments the real balance function hands to LineCoolingData::get_cooling at temperature
+/// T, and the value it gets back: the same real static functions in the same order, the
+/// abundance formulas of TemperatureCalculator.cpp 363-418 (glue; the model computes the same
+/// quantities and the `bal` answers compare them, so a slip here shows as a disagreement)
+static_assert(LINECOOLINGDATA_NUMELEMENTS == 13, "line cooling element list changed");
+struct Pieces {
+  double ne, abund[LINECOOLINGDATA_NUMELEMENTS], L;
+};
+static Pieces pieces(const TempArgs &a, const double T) {
+  Pieces p;
+  double j[NUMBER_OF_IONNAMES];
   for (int i = 0; i < NUMBER_OF_IONNAMES; ++i)
     j[i] = a.jfac * a.mean[i];
-  for (int i = 0; i < NUMBER_OF_HEATINGTERMS; ++i)
-    h[i] = a.hfac * a.heat[i];
+  double h0, he0;
+  IonizationStateCalculator::compute_ionization_states_hydrogen_helium(
+      W->rates.get_recombination_rate(ION_H_n, T), W->rates.get_recombination_rate(ION_He_n, T),
+      j[ION_H_n], j[ION_He_n], a.n, a.AHe, T, h0, he0);
+  p.ne = a.n * (1. - h0 + a.AHe * (1. - he0));
+  const double nhp = a.n * (1. - h0), nh0 = a.n * h0, nhe0 = a.n * he0 * a.AHe;
+  IonizationVariables iv;
+  IonizationStateCalculator::compute_ionization_states_metals(&j[2], p.ne, T, T * 1.e-4, nh0, nhe0,
+                                                              nhp, W->rates, W->ctr, iv);
+  auto f = [&](int ion) { return iv.get_ionic_fraction(ion); };
+  p.abund[CII] = a.AC * (1. - f(ION_C_p1) - f(ION_C_p2));
+  p.abund[CIII] = a.AC * f(ION_C_p1);
+  p.abund[NI] = a.AN * (1. - f(ION_N_n) - f(ION_N_p1) - f(ION_N_p2));
+  p.abund[NII] = a.AN * f(ION_N_n);
+  p.abund[NIII] = a.AN * f(ION_N_p1);
+  p.abund[OI] = a.AO * (1. - f(ION_O_n) - f(ION_O_p1));
+  p.abund[OII] = a.AO * f(ION_O_n);
+  p.abund[OIII] = a.AO * f(ION_O_p1);
+  p.abund[NeII] = a.ANe * f(ION_Ne_n);
+  p.abund[NeIII] = a.ANe * f(ION_Ne_p1);
+  p.abund[SII] = a.AS * (1. - f(ION_S_p1) - f(ION_S_p2) - f(ION_S_p3));
+  p.abund[SIII] = a.AS * f(ION_S_p1);
+  p.abund[SIV] = a.AS * f(ION_S_p2);
+  p.L = W->data.get_cooling(T, p.ne, p.abund);
+  return p;
+}
+/// abundances in the order of the model's `Abund` structure
+static std::string abund_text(const Pieces &p) {
+  const int order[13] = {CII, CIII, NI, NII, NIII, OI, OII, OIII, NeII, NeIII, SII, SIII, SIV};
+  std::ostringstream o;
+  for (int i = 0; i < 13; ++i)
+    o << (i ? " " : "") << showF(p.abund[order[i]]);
+  return o.str();
+}
+/// `aH aHe a[12] ct[19]` at temperature T
+static std::string rates_text(const double T) {
+  std::ostringstream o;
+  for (int ion = 0; ion < 14; ++ion)
+    o << (ion ? " " : "") << showF(W->rates.get_recombination_rate(ion, T));
+  double c[19];
+  ct19(W->ctr, T * 1.e-4, c);
+  for (int i = 0; i < 19; ++i)
+    o << " " << showF(c[i]);
+  return o.str();
+}
+
+/// table of the temperature dependent inputs of the MODEL's balance function (rates and the
+/// value of the real line cooling routine) at the temperatures in Ts ---------------------------
+static std::string balance_table(const TempArgs &a, const std::vector< double > &Ts) {
   std::set< uint64_t > seen;
   std::ostringstream body;
   size_t cnt = 0;
   for (double T : Ts) {
     if (!seen.insert(bits_of(T)).second)
       continue;
-    IonizationVariables iv;
-    fill_vars(a, iv);
-    double h0, he0, gain, loss;
-    TemperatureCalculator::compute_cooling_and_heating_balance(
-        h0, he0, gain, loss, T, iv, CoordinateVector<>(0., 0., a.z), j, ab, h, a.pah, crfac,
-        a.crscale, W->data, W->rates, W->ctr);
-    body << " " << showF(T) << " " << showF(h0) << " " << showF(he0) << " " << showF(gain) << " "
-         << showF(loss);
-    for (int i = 0; i < 12; ++i)
-      body << " " << showF(iv.get_ionic_fraction(2 + i));
+    const Pieces p = pieces(a, T);
+    body << " " << showF(T) << " " << rates_text(T) << " " << showF(p.L);
     ++cnt;
   }
   std::ostringstream o;
   o << cnt << body.str();
+  return o.str();
+}
+
+/// the real balance function at temperature T (crfac as given), plus the glue's ne / abundances
+static std::string run_bal(const TempArgs &a, const double T) {
+  Abundances ab(a.AHe, a.AC, a.AN, a.AO, a.ANe, a.AS);
+  double j[NUMBER_OF_IONNAMES], h[NUMBER_OF_HEATINGTERMS];
+  for (int i = 0; i < NUMBER_OF_IONNAMES; ++i)
+    j[i] = a.jfac * a.mean[i];
+  for (int i = 0; i < NUMBER_OF_HEATINGTERMS; ++i)
+    h[i] = a.hfac * a.heat[i];
+  IonizationVariables iv;
+  fill_vars(a, iv);
+  double h0, he0, gain, loss;
+  TemperatureCalculator::compute_cooling_and_heating_balance(
+      h0, he0, gain, loss, T, iv, CoordinateVector<>(0., 0., a.z), j, ab, h, a.pah, a.crfac,
+      a.crscale, W->data, W->rates, W->ctr);
+  const Pieces p = pieces(a, T);
+  std::ostringstream o;
+  o << showF(h0) << " " << showF(he0) << " " << showF(gain) << " " << showF(loss);
+  for (int i = 0; i < 12; ++i)
+    o << " " << showF(iv.get_ionic_fraction(2 + i));
+  o << " " << showF(p.ne) << " " << abund_text(p) << " " << showF(p.L);
   return o.str();
 }
 
@@ -394,6 +460,33 @@ static std::string prep_line(const std::vector< std::string > &w) {
     ct19(W->ctr, T * 1.e-4, c);
     for (int i = 0; i < 19; ++i)
       o << " " << showF(c[i]);
+  } else if ((op == "balspec" && w.size() >= 20) || (op == "balxraw" && w.size() == 36)) {
+    // balspec: the scalars of tempspec (Told is the temperature of the evaluation); balxraw:
+    // those of tempxraw.  Full line:
+    // bal T n j[14] hH hHe AHe AC AN AO ANe AS pah crfac crscale z aH aHe a[12] ct[19] L
+    TempArgs a;
+    if (op == "balspec") {
+      a = parse_scalars(w, 1, false);
+      spectrum(w, 19, a.mean, a.heat);
+    } else {
+      a = parse_scalars(w, 1, true);
+      for (int i = 0; i < 14; ++i)
+        a.mean[i] = dbl(w[20 + i]);
+      a.heat[0] = dbl(w[34]);
+      a.heat[1] = dbl(w[35]);
+    }
+    std::string res;
+    int status;
+    const bool ok = in_child([&]() { return showF(pieces(a, a.Told).L); }, res, status);
+    if (!ok)
+      return "abort " + join(w);
+    o << (op == "balspec" ? "bal " : "balx ") << showF(a.Told) << " " << showF(a.n);
+    for (int i = 0; i < 14; ++i)
+      o << " " << showF(a.jfac * a.mean[i]);
+    o << " " << showF(a.hfac * a.heat[0]) << " " << showF(a.hfac * a.heat[1]) << " " << showF(a.AHe)
+      << " " << showF(a.AC) << " " << showF(a.AN) << " " << showF(a.AO) << " " << showF(a.ANe) << " "
+      << showF(a.AS) << " " << showF(a.pah) << " " << showF(a.crfac) << " " << showF(a.crscale)
+      << " " << showF(a.z) << " " << rates_text(a.Told) << " " << res;
   } else if (((op == "tempspec" || op == "tempxspec") && w.size() >= 20) ||
              ((op == "tempraw" || op == "tempxraw") && w.size() == 36)) {
     // tempspec <18 scalars: jfac n Told AHe AC AN AO ANe AS pah crfac crcell crlim crscale z eps tmin maxit> K (nu w)*K
@@ -709,6 +802,71 @@ int main(int argc, char **argv) {
             bad << " temp:stage-sum-above-1";
         }
       }
+    } else if ((op == "bal" || op == "balx") && w.size() == 63) {
+      // the full line carries normalised j and h: jfac = hfac = 1
+      TempArgs a;
+      a.jfac = a.hfac = 1.;
+      const double T = dbl(w[1]);
+      a.n = dbl(w[2]);
+      a.Told = T;
+      for (int i = 0; i < 14; ++i)
+        a.mean[i] = dbl(w[3 + i]);
+      a.heat[0] = dbl(w[17]);
+      a.heat[1] = dbl(w[18]);
+      a.AHe = dbl(w[19]);
+      a.AC = dbl(w[20]);
+      a.AN = dbl(w[21]);
+      a.AO = dbl(w[22]);
+      a.ANe = dbl(w[23]);
+      a.AS = dbl(w[24]);
+      a.pah = dbl(w[25]);
+      a.crfac = dbl(w[26]);
+      a.crscale = dbl(w[27]);
+      a.z = dbl(w[28]);
+      a.crcell = 1.;
+      for (int k = 0; k < 12; ++k)
+        a.met0[k] = SENTINEL;
+      if (rates_text(T) != join(std::vector< std::string >(w.begin() + 29, w.begin() + 62))) {
+        std::cout << "bal line-inconsistent-with-rate-tables\n";
+      } else {
+        std::string res;
+        int status;
+        const bool ok = in_child([&]() { return run_bal(a, T); }, res, status);
+        if (!ok) {
+          std::cout << "bal abort\n";
+          if (op == "bal")
+            bad << " bal:abort " << why(status);
+        } else {
+          auto r = words(res);
+          if (r[30] != w[62]) {
+            std::cout << "bal line-inconsistent-with-line-cooling-table\n";
+          } else {
+            std::cout << "bal";
+            for (int i = 0; i < 30; ++i)
+              std::cout << " " << r[i];
+            std::cout << "\n";
+            // with free electrons the balance is physical: fractions, stage sums, finite
+            // non-negative gain and loss, non-negative abundances for the line cooling
+            const double ne = tokval(r[16]);
+            if (op == "bal" && ne > 0.) {
+              bool okb = frac_ok(tokval(r[0])) && frac_ok(tokval(r[1])) && fin_(tokval(r[2])) &&
+                         tokval(r[2]) >= 0. && fin_(tokval(r[3])) && tokval(r[3]) >= 0.;
+              double f[12];
+              for (int i = 0; i < 12; ++i) {
+                f[i] = tokval(r[4 + i]);
+                okb = okb && frac_ok(f[i]);
+              }
+              okb = okb && f[0] + f[1] <= 1. + 1.e-12 && f[2] + f[3] + f[4] <= 1. + 1.e-12 &&
+                    f[5] + f[6] <= 1. + 1.e-12 && f[7] + f[8] <= 1. + 1.e-12 &&
+                    f[9] + f[10] + f[11] <= 1. + 1.e-12;
+              for (int i = 0; i < 13; ++i)
+                okb = okb && tokval(r[17 + i]) >= -1.e-12 * 1.e-3;
+              if (!okb)
+                bad << " bal:range";
+            }
+          }
+        }
+      }
     } else if (op == "newcell") {
       delete g_hist;
       g_hist = new IonizationVariables();
@@ -719,7 +877,10 @@ int main(int argc, char **argv) {
       const std::string again = raw.empty() ? "" : prep_line(raw);
       if (again.compare(0, 5, "abort") == 0) {
         std::cout << "abort\n";
-        if (raw[0] != "tempxraw" && raw[0] != "tempxspec")
+        const bool outside = raw[0] == "tempxraw" || raw[0] == "tempxspec" || raw[0] == "balxraw";
+        if (!outside && raw[0] == "balspec")
+          bad << " bal:abort (compute_cooling_and_heating_balance did not return)";
+        else if (!outside)
           bad << " temp:abort (calculate_temperature did not return)";
       } else {
         std::cout << "abort-not-reproduced\n";
